@@ -253,9 +253,54 @@ fn huge_zst<N: generic_array::ArrayLength>(st: &mut Stats) {
     }
 }
 
+/// chunk lengths far beyond any slice that exists (N at and around 2^32, 2^40): an ordinary slice
+/// holds zero whole chunks and is all remainder, in place; an empty slice gives two empty results
+fn huge_n<E: Elem, N: generic_array::ArrayLength>(st: &mut Stats) {
+    let n = N::USIZE;
+    for l in [0usize, 1, 5, 100, 4099] {
+        st.check_case("C10", "chunks_from_slice", E::NAME, || format!("C10 chunks_from_slice hugeN {} N={n} L={l}", E::NAME), l > 0, || {
+            let mut src: Vec<E> = (0..l).map(|_| E::fresh()).collect();
+            let want = keys(&src);
+            let base = src.as_ptr() as usize;
+            {
+                let (c, r) = GenericArray::<E, N>::chunks_from_slice(&src);
+                if !c.is_empty() || r.len() != l {
+                    return Err(format!("ChunkCount: {} chunks + {} left from {l} elements with N = {n}", c.len(), r.len()));
+                }
+                if r.as_ptr() as usize != base || keys(r) != want {
+                    return Err("AddressMismatch: the remainder is not the source slice".into());
+                }
+                if !GenericArray::<E, N>::slice_from_chunks(c).is_empty() {
+                    return Err("ChunkCount: slice_from_chunks of no chunks".into());
+                }
+            }
+            let (c, r) = GenericArray::<E, N>::chunks_from_slice_mut(&mut src);
+            if !c.is_empty() || r.len() != l || r.as_ptr() as usize != base {
+                return Err(format!("ChunkCount: mutable form: {} chunks + {} left from {l} elements with N = {n}", c.len(), r.len()));
+            }
+            Ok(())
+        });
+    }
+}
+
 fn main() {
     let args = Args::parse();
     let mut st = Stats::new("chunks", &args);
+    if args.maxn >= 1024 {
+        use generic_array::typenum::{Sum, U1099511627776, U3, U4294967296};
+        if args.flavour_on("u8") {
+            huge_n::<u8, U4294967296>(&mut st);
+            huge_n::<u8, Sum<U4294967296, U3>>(&mut st);
+            huge_n::<u8, U1099511627776>(&mut st);
+        }
+        if args.flavour_on("()") {
+            huge_n::<(), U4294967296>(&mut st);
+            huge_n::<(), Sum<U4294967296, U3>>(&mut st);
+        }
+        if args.flavour_on("u32") {
+            huge_n::<u32, Sum<U4294967296, U3>>(&mut st);
+        }
+    }
     if args.flavour_on("()") && args.maxn >= 8 {
         huge_zst::<U<1>>(&mut st);
         huge_zst::<U<2>>(&mut st);
